@@ -20,6 +20,12 @@ RULE += (". Widened (~8%): OBJECT instances whose keys look like numbers (\"1\",
          "propertyNames (type, minLength / maxLength, pattern, const, enum, numeric bounds), patternProperties, properties, required, "
          "dependentRequired, additionalProperties, min/maxProperties. The model's value language has no json.Number-keyed maps: for those "
          "representations the verdict is compared with the canonical decoding's (the statement itself), for all others also with the model")
+RULE += (". Widened (~6%): OBJECT instances carried by maps whose ELEMENT type is a pointer type (map[string]*int, map[MyString]**string, "
+         "*map[string]*[]any, …; also one level down, under items / properties) in which about half of the members are JSON null, held as "
+         "a directly nil pointer, as a non-nil pointer to a nil pointer, or (element type *any) as a pointer to a nil interface — "
+         "against properties whose subschemas tell null from the member type (type, const, enum, false, not), additionalProperties "
+         "(false / a schema on null), patternProperties, unevaluatedProperties, required, dependentRequired, min/maxProperties, propertyNames: "
+         "a null member is PRESENT and is null whichever map carries it")
 ASSUMPTIONS = ["nil slices, nil maps and struct instances are outside the property's domain"]
 
 
@@ -147,9 +153,117 @@ def numeric_keys_case(rng):
     return {"op": "validate", "args": {"schema": o, "ginsts": reprs}, "meta": {"nt": True, "numkeys": True}}
 
 
+PTR_ELEMS = ["int", "int", "string", "float64", "bool", "any", "[]any", "jnum", "map[string]any", "mystring", "uint8", "[]int"]
+JTYPE_OF = {"int": "integer", "uint8": "integer", "float64": "number", "jnum": "number", "string": "string", "mystring": "string",
+            "bool": "boolean", "[]any": "array", "[]int": "array", "map[string]any": "object"}
+
+
+def _value_of(rng, et):
+    if et in ("int", "uint8", "jnum"):
+        return Num(str(rng.randint(0, 5)))
+    if et == "float64":
+        return Num(rng.choice(["0", "1", "0.5", "-2.25", "3"]))
+    if et in ("string", "mystring"):
+        return rng.choice(gv.STRINGS)
+    if et == "bool":
+        return rng.random() < 0.5
+    if et == "[]any":
+        return [gv.gen_json(rng, 0) for _ in range(rng.randint(0, 2))]
+    if et == "[]int":
+        return [Num(str(rng.randint(0, 3))) for _ in range(rng.randint(0, 2))]
+    if et == "map[string]any":
+        return Obj([(k, gv.gen_json(rng, 0)) for k in rng.sample(gv.NAMES, rng.randint(0, 2))])
+    return gv.gen_json(rng, 1)
+
+
+def _null_teller(rng, et, v):
+    """A subschema for one member: it tells null from the member's own type, or looks at the value."""
+    r = rng.random()
+    jt = JTYPE_OF.get(et, rng.choice(gs.TYPES))
+    if r < 0.3:
+        return Obj([("type", rng.choice([jt, jt, "null", [jt, "null"], rng.choice(gs.TYPES)]))])
+    if r < 0.42:
+        return Obj([("const", rng.choice([None, v, gv.mutate_leaf(rng, v)]))])
+    if r < 0.52:
+        return Obj([("enum", rng.sample([None, v, Num("0"), "", False, []], rng.randint(1, 3)))])
+    if r < 0.62:
+        return Obj([("not", Obj([("type", rng.choice(["null", jt]))]))])
+    if r < 0.72:
+        return rng.random() < 0.5
+    if r < 0.8:
+        return Obj()
+    return schema_for(rng, v)
+
+
+def pointer_map_case(rng):
+    """An object held by a map with POINTER elements; its null members are nil pointers (directly, or behind one more pointer)."""
+    et = rng.choice(PTR_ELEMS)
+    names = rng.sample(gv.NAMES + ["é", ""], rng.randint(1, 4))
+    j = Obj([(k, None if rng.random() < 0.5 else _value_of(rng, et)) for k in names])
+    if not gv.float64_ok(j):
+        return None
+    pool = list(dict.fromkeys(names + gv.NAMES[:2]))
+    o = Obj()
+    for _ in range(rng.choice([1, 2, 2, 3])):
+        r = rng.random()
+        if r < 0.5:
+            ks = rng.sample(pool, rng.randint(1, min(3, len(pool))))
+            o.set("properties", Obj([(k, _null_teller(rng, et, j.get(k) if k in j.keys() and j.get(k) is not None else _value_of(rng, et))) for k in ks]))
+            c = rng.random()
+            if c < 0.35:
+                o.set("additionalProperties", False)
+            elif c < 0.55:
+                o.set("additionalProperties", _null_teller(rng, et, _value_of(rng, et)))
+            elif c < 0.65:
+                o.set("unevaluatedProperties", rng.choice([False, Obj([("type", "null")])]))
+        elif r < 0.62:
+            o.set("required", rng.sample(pool, rng.randint(1, 2)))
+        elif r < 0.7:
+            o.set("patternProperties", Obj([(rng.choice(["^a", "^[a-c]$", ".", "^$", "^é"]), _null_teller(rng, et, _value_of(rng, et)))]))
+            if rng.random() < 0.5:
+                o.set("additionalProperties", rng.random() < 0.3)
+        elif r < 0.78:
+            o.set("dependentRequired", Obj([(rng.choice(names), [rng.choice(pool)])]))
+        elif r < 0.86:
+            o.set(rng.choice(["minProperties", "maxProperties"]), Num(str(rng.randint(0, 4))))
+        elif r < 0.93:
+            o.set("propertyNames", Obj([(rng.choice(["minLength", "maxLength"]), Num(str(rng.randint(0, 2))))]))
+        else:
+            o.set("additionalProperties", _null_teller(rng, et, _value_of(rng, et)))
+    reprs = [gv.canonical_repr(j)]
+    for _ in range(3):
+        T = "map[%s]%s%s" % (rng.choice(["string", "string", "mystring"]), rng.choice(["*", "*", "**"]), et)
+        d = gv.represent_as(rng, j, T)
+        if d is None:
+            return None
+        if T.count("*") == 2 or et == "any":
+            # a null member may also be a NON-nil pointer to a nil pointer / nil interface
+            pt = T[T.index("]") + 1:]
+            for kv in d["v"]:
+                if kv[1] is not None and kv[1].get("v") is None and rng.random() < 0.5:
+                    kv[1] = {"t": pt, "v": {"t": pt[1:], "v": None}}
+        if rng.random() < 0.25:
+            d = {"t": "*" + d["t"], "v": d}
+        reprs.append(d)
+    if rng.random() < 0.3:
+        # the object one level down: as an interface element of []any / map[string]any, or as the element of a typed slice
+        if rng.random() < 0.5:
+            j2, o = [j], Obj([("items", o)])
+            reprs = [{"t": "[]any" if i == 0 or rng.random() < 0.5 else "[]" + d["t"], "v": [d]} for i, d in enumerate(reprs)]
+        else:
+            j2, o = Obj([("a", j)]), Obj([("properties", Obj([("a", o)]))])
+            reprs = [{"t": "map[string]any" if i == 0 or rng.random() < 0.5 else "map[string]" + d["t"], "v": [["a", d]]} for i, d in enumerate(reprs)]
+    return {"op": "validate", "args": {"schema": o, "ginsts": reprs}, "meta": {"nt": True, "ptrmap": True}}
+
+
 def gen(rng, tier, n):
     ops = []
     while len(ops) < n:
+        if rng.random() < 0.06:
+            o = pointer_map_case(rng)
+            if o is not None:
+                ops.append(o)
+            continue
         if rng.random() < 0.08:
             o = numeric_keys_case(rng)
             if o is not None:
